@@ -49,6 +49,25 @@ def edge_aligned_trapezoids(rng):
     return out
 
 
+def full_range_trapezoids(rng):
+    """trapezoids whose edge lines run across the whole int32 coordinate range (end points more than 2^31 apart in
+       y and/or x, so that the 33-bit differences of the end points wrap in 32-bit arithmetic), through every
+       trapezoid entry point, on small alpha images"""
+    out = []
+    lo, hi = -2 ** 31, 2 ** 31 - 1
+    lines = [(0, lo, lo, hi), (lo, lo, hi, hi), (hi, lo, lo, hi), (0, lo, 0, hi), (lo, lo, 0, hi), (21845, lo + 1, lo, hi - 1),
+             (hi, -FX1, lo, 3 * FX1), (lo, 0, hi, FX1)]
+    for dfmt in (F["a8"], F["a1"], fmt4()):
+        for (lx1, ly1, lx2, ly2) in lines:
+            for (rx1, ry1, rx2, ry2) in ((hi, lo, hi, hi), (12 * FX1, lo, 12 * FX1, hi), (lx2, ly2, lx1, ly1)):
+                for (top, bot) in ((0, 3 * FX1), (lo, hi), (21845, 21848)):
+                    for tk in (0, 1, 2, 3):
+                        vals = [top, bot, lx1, ly1, lx2, ly2, rx1, ry1, rx2, ry2]
+                        f = [rng.choice([0, 1, 2]), dfmt, 11, 3, 1] + vals + [0, 0, rng.randrange(1, 2 ** 31), tk]
+                        out.append("T %d %s" % (len(f), " ".join(str(int(x)) for x in f)))
+    return out
+
+
 def blit_like(rng):
     """same-format, same-size, same-stride copies of whole images and of windows (the shape memcpy-style shortcuts
        are written for), with padded strides, in every observation mode"""
@@ -286,6 +305,9 @@ def run(prop, args):
     edge = edge_aligned_trapezoids(rng)
     reqs += edge if not quick else rng.sample(edge, 700)
     chk.extra["edge_aligned_trapezoid_requests"] = len(edge)
+    full = full_range_trapezoids(rng)
+    reqs += full if not quick else rng.sample(full, 300)
+    chk.extra["full_range_trapezoid_requests"] = len(full)
     tight = tight_table_requests(rng, wd)
     reqs += tight if (not quick or len(tight) <= 1500) else rng.sample(tight, 1500)
     chk.extra["tight_fast_path_table_requests"] = len(tight)
